@@ -47,3 +47,46 @@ Proof.
   - apply B.
   - apply B.
 Qed.
+
+(** ** kernels of tafreq / gtfreq / meh / the three codings (both classes) *)
+Lemma k_tafreq_model ploidy mat :
+  map (map (fun x => k_tafreq (k_tafreq_recip (f_of_Z ploidy)) (f_of_Z x))) mat = tafreq_f ploidy mat.
+Proof. reflexivity. Qed.
+Lemma k_ph_tafreq_model ploidy mat :
+  map (map (fun x => k_ph_tafreq (k_ph_tafreq_recip (f_of_Z ploidy)) (f_of_Z x))) mat = tafreq_f ploidy mat.
+Proof. reflexivity. Qed.
+Lemma k_gtfreq_model (ploidy p : nat) mat :
+  map (map (fun c => k_gtfreq (k_gtfreq_recip (f_of_Z (ntaxa mat))) (f_of_Z c))) (gtcount ploidy p mat) = gtfreq_f ploidy p mat.
+Proof. reflexivity. Qed.
+Lemma k_ph_gtfreq_model (ploidy p : nat) mat :
+  map (map (fun c => k_ph_gtfreq (k_ph_gtfreq_recip (f_of_Z (ntaxa mat))) (f_of_Z c))) (gtcount ploidy p mat) = gtfreq_f ploidy p mat.
+Proof. reflexivity. Qed.
+(** meh: unphased  dot(p, 1 - p) * (ploidy / nvrnt) ; phased  sum(p * (1 - p)) * (ploidy / nvrnt)  — the same exact rational *)
+Lemma k_meh_model ploidy p mat :
+  Qmult (k_meh_scale (Qmake ploidy 1) (Qmake (Z.of_nat p) 1)) (sumQ (map (fun x => Qmult x (k_meh_compl x)) (afreq_q ploidy p mat)))
+  = meh_q ploidy p mat.
+Proof. reflexivity. Qed.
+Lemma k_ph_meh_model ploidy p mat :
+  Qmult (k_ph_meh_scale (Qmake ploidy 1) (Qmake (Z.of_nat p) 1)) (sumQ (map k_ph_meh_term (afreq_q ploidy p mat))) = meh_q ploidy p mat.
+Proof. reflexivity. Qed.
+Lemma k_fmt_m101_model mat : map (map k_fmt_m101) mat = fmt_m101 mat.        Proof. reflexivity. Qed.
+Lemma k_ph_fmt_m101_model mat : map (map k_ph_fmt_m101) mat = fmt_m101 mat.  Proof. reflexivity. Qed.
+(** {-1,m,1}: shift, then per column replace the entries selected by the mask by the column mean *)
+Definition fmt_m1m1_gen (shift : Z -> Z) (mask : Z -> bool) (p : nat) (mat : list (list Z)) : list (list Q) :=
+  let sh := map (map shift) mat in
+  let means := map (fun c => Qmake c 1 / Qmake (ntaxa mat) 1)%Q (colsumsZ p sh) in
+  map (fun row => map2 (fun x m => if mask x then m else Qmake x 1) row means) sh.
+Lemma k_fmt_m1m1_model p mat : fmt_m1m1_gen k_fmt_shift k_fmt_mask p mat = fmt_m1m1 p mat.          Proof. reflexivity. Qed.
+Lemma k_ph_fmt_m1m1_model p mat : fmt_m1m1_gen k_ph_fmt_shift k_ph_fmt_mask p mat = fmt_m1m1 p mat. Proof. reflexivity. Qed.
+
+(** what the generated coding kernels compute, for every integer dosage: the {-1,0,1} value is x-1, the float shift of the
+    {-1,m,1} branch is the same value, and the entries replaced by the marker mean are exactly the heterozygotes (x = 1);
+    for a diploid dosage the {-1,0,1} value lies in {-1,0,1} *)
+Lemma kernel_codings (x : Z) :
+  k_fmt_m101 x = x - 1 /\ k_ph_fmt_m101 x = x - 1 /\ k_fmt_shift x = k_fmt_m101 x /\ k_ph_fmt_shift x = k_ph_fmt_m101 x
+  /\ k_fmt_mask (k_fmt_shift x) = (x =? 1) /\ k_ph_fmt_mask (k_ph_fmt_shift x) = (x =? 1)
+  /\ (0 <= x <= 2 -> -1 <= k_fmt_m101 x <= 1 /\ -1 <= k_ph_fmt_m101 x <= 1).
+Proof.
+  unfold k_fmt_m101, k_ph_fmt_m101, k_fmt_shift, k_ph_fmt_shift, k_fmt_mask, k_ph_fmt_mask.
+  repeat split; try lia; destruct (Z.eqb_spec (x - 1) 0), (Z.eqb_spec x 1); try reflexivity; lia.
+Qed.
